@@ -1,10 +1,13 @@
 //! C05 (interpreter data semantics) and C06 (control flow, length, timing) — E1 sweeps of
-//! `interpreter::run_next_op` against R1 on the shared single-step engine.
+//! `interpreter::run_next_op` against R1 on the shared single-step engine — and, with the
+//! same sweep generator, C01/C02: the single-instruction block `insn [+ JP nn]` executed by
+//! the real emitter and by `interpreter::run_code_block` from every enumerated state.
 //!
 //! A *sweep* fixes an encoding and an operand class and enumerates that class completely;
 //! the pool case index is (sweep, outer value) and the inner loops run inside the case.
 
 use crate::cpustep::{cpu_of, diff, Exp, Obs, StepWorld};
+use crate::jitstep::{BlockObs, JitWorld};
 use crate::refm::r1::{self, Cpu};
 use crate::util::json::J;
 use crate::util::pool::{run_pool, Ctx, PoolOpts};
@@ -109,10 +112,28 @@ fn enc(op: u8) -> ([u8; 3], u8) {
   ([op, 0x5A, 0xC3], len)
 }
 
+/// ROM-only placements for the block modes (translated code exists for ROM only)
+const PLACES_JIT: [(u16, &str); 12] = [
+  (0x0000, "rom0"),
+  (0x0001, "rom0"),
+  (0x00FF, "rom0"),
+  (0x0150, "rom0"),
+  (0x3FF0, "rom0-end"),
+  (0x3FFA, "rom0->romN"),
+  (0x3FFD, "rom0->romN"),
+  (0x3FFE, "rom0|romN"),
+  (0x3FFF, "rom0|romN"),
+  (0x4000, "romN"),
+  (0x4001, "romN"),
+  (0x7FF8, "romN-end"),
+];
+
 fn build_sweeps(prop: &str, thorough: bool) -> Vec<Sweep> {
+  let jit = prop == "C01" || prop == "C02";
   let mut v = Vec::new();
+  let n_places = if jit { PLACES_JIT.len() } else { PLACES.len() + STRADDLE.len() } as u32;
   let mut add = |kind: Kind, code: [u8; 3], len: u8, outer: u32| v.push(Sweep { kind, code, len, outer });
-  if prop == "C05" {
+  if prop == "C05" || prop == "C01" {
     // x=2 ALU A,r and x=3,z=6 ALU A,d8
     for y in 0..8u8 {
       for z in 0..8u8 {
@@ -148,7 +169,7 @@ fn build_sweeps(prop: &str, thorough: bool) -> Vec<Sweep> {
       }
     }
     for y in 0..8u8 {
-      add(Kind::Ld8, [(y << 3) | 6, 0, 0], 2, 16);
+      add(Kind::Ld8, [(y << 3) | 6, 0, 0], 2, 256); // outer = the immediate
     }
     // LD rr,d16 ; INC/DEC rr ; ADD HL,rr
     for p in 0..4u8 {
@@ -188,16 +209,17 @@ fn build_sweeps(prop: &str, thorough: bool) -> Vec<Sweep> {
     add(Kind::Ptr(PtrVia::Imm16), [0xFA, 0, 0], 3, 256);
     add(Kind::Ptr(PtrVia::Sp), [0x08, 0, 0], 3, 256);
     add(Kind::Imm16, [0xF9, 0, 0], 1, 256); // LD SP,HL over all HL
-  } else {
+  }
+  if prop == "C06" || jit {
     // every encoding (incl. undefined) x F x placement
     for op in 0..=255u8 {
       if op == 0xCB {
         for cb in 0..=255u8 {
-          add(Kind::Place, [0xCB, cb, 0], 2, (PLACES.len() + STRADDLE.len()) as u32);
+          add(Kind::Place, [0xCB, cb, 0], 2, n_places);
         }
       } else {
         let (c, l) = enc(op);
-        add(Kind::Place, c, l, (PLACES.len() + STRADDLE.len()) as u32);
+        add(Kind::Place, c, l, n_places);
       }
     }
     for op in [0x18u8, 0x20, 0x28, 0x30, 0x38].iter() {
@@ -212,7 +234,21 @@ fn build_sweeps(prop: &str, thorough: bool) -> Vec<Sweep> {
     }
     for op in stack_ops {
       let (c, l) = enc(op);
-      add(Kind::SpAll, c, l, if thorough { 256 } else { 0 });
+      add(Kind::SpAll, c, l, if thorough { 256 } else { 1 });
+    }
+  }
+  if jit && !thorough {
+    // sweeps whose 16-bit value is part of the code cost one translation per value: the
+    // quick tier of the recompiler checks takes the 96-value boundary set there
+    for s in v.iter_mut() {
+      let code_varies = match s.kind {
+        Kind::Imm16 => s.len == 3,
+        Kind::Ptr(PtrVia::Imm16) | Kind::Ptr(PtrVia::Sp) | Kind::Target => true,
+        _ => false,
+      };
+      if code_varies {
+        s.outer = 1;
+      }
     }
   }
   v
@@ -220,6 +256,8 @@ fn build_sweeps(prop: &str, thorough: bool) -> Vec<Sweep> {
 
 struct Job {
   prop: &'static str,
+  /// true: recompiler vs interpreter on blocks (C01/C02); false: interpreter vs R1 (C05/C06)
+  jit: bool,
   sweeps: Vec<Sweep>,
   starts: Vec<u64>,
   total: u64,
@@ -301,11 +339,43 @@ fn cpu_json(c: &Cpu) -> J {
 
 struct W {
   w: StepWorld,
+  jw: Option<JitWorld>,
   planted: Vec<(u16, u8)>,
+  /// block modes: the planted bytes are kept across cases of the same sweep so that an
+  /// unchanged block is not translated again (translation costs two mprotect calls)
+  last_sweep: usize,
+}
+
+/// terminator appended to non-terminating instructions in the block modes: JP 0x0213
+const TERM: [u8; 3] = [0xC3, 0x13, 0x02];
+
+fn is_terminator(code: &[u8]) -> bool {
+  if code[0] == 0xCB {
+    return false;
+  }
+  match r1::info(code[0]) {
+    Some(i) => i.3,
+    None => true, // undefined: both engines must refuse, nothing follows
+  }
 }
 
 impl W {
   fn plant(&mut self, pc: u16, code: &[u8]) {
+    if let Some(jw) = self.jw.as_mut() {
+      // instruction bytes (or a data byte when code.len() == 1 and the address is not ROM)
+      jw.plant_bytes(pc, code);
+      if !is_terminator(code) {
+        jw.plant_bytes(pc.wrapping_add(code.len() as u16), &TERM);
+      }
+      return;
+    }
+    self.plant_data(pc, code);
+  }
+  fn plant_data(&mut self, pc: u16, code: &[u8]) {
+    if let Some(jw) = self.jw.as_mut() {
+      jw.plant_bytes(pc, code);
+      return;
+    }
     for (i, b) in code.iter().enumerate() {
       let a = pc.wrapping_add(i as u16);
       if a == 0xFFFF {
@@ -319,6 +389,10 @@ impl W {
     }
   }
   fn unplant(&mut self) {
+    if let Some(jw) = self.jw.as_mut() {
+      jw.unplant_all();
+      return;
+    }
     while let Some((a, old)) = self.planted.pop() {
       self.w.poke(a, old);
     }
@@ -328,6 +402,9 @@ impl W {
 /// one evaluated case; returns nothing, reports through ctx
 #[inline]
 fn eval(job: &Job, wk: &mut W, ctx: &mut Ctx, sw: &Sweep, c: &Cpu, mem: Option<(u16, u8)>, place: &str) {
+  if job.jit {
+    return eval_jit(job, wk, ctx, sw, c, mem, place);
+  }
   let exp = wk.w.expect(c);
   let obs = wk.w.run_interp(c);
   ctx.count(0, 1);
@@ -367,6 +444,110 @@ fn eval(job: &Job, wk: &mut W, ctx: &mut Ctx, sw: &Sweep, c: &Cpu, mem: Option<(
   wk.w.undo(&exp, &obs);
 }
 
+fn bobs_json(o: &BlockObs) -> J {
+  J::obj()
+    .set("af", J::s(format!("{:04X}", o.af & 0xffff)))
+    .set("bc", J::s(format!("{:04X}", o.bc & 0xffff)))
+    .set("de", J::s(format!("{:04X}", o.de & 0xffff)))
+    .set("hl", J::s(format!("{:04X}", o.hl & 0xffff)))
+    .set("sp", J::s(format!("{:04X}", o.sp & 0xffff)))
+    .set("pc", J::s(format!("{:04X}", o.ip & 0xffff)))
+    .set("cycles", J::u(o.cycles as u64))
+    .set("status", J::u(o.status as u64))
+    .set("refused", J::Bool(o.refused))
+    .set("panic", J::s(o.panic_msg.as_str()))
+    .set("writes", J::Arr(o.writes.iter().map(|(a, v)| J::s(format!("{:04X}<-{:02X}", a, v))).collect()))
+    .set("reads", J::Arr(o.reads.iter().take(16).map(|a| J::s(format!("{:04X}", a))).collect()))
+    .set("device_digest", J::s(format!("{:016x}", o.io_digest)))
+}
+
+/// `Core::run_code_block` maps both STATUS_INTERRUPT_ENABLE (4) and
+/// STATUS_INTERRUPT_ENABLE_IMMEDIATE (5) to "enabled": they are one outcome for a block.
+fn status_class(s: u8) -> u8 {
+  // anything outside STATUS_STOP..=STATUS_INTERRUPT_ENABLE_IMMEDIATE falls into run_code_block's
+  // `_ => ()` arm exactly like STATUS_NORMAL (translated CB/rotate templates leave 0x80 there)
+  match s {
+    1 | 2 | 3 => s,
+    4 | 5 => 4,
+    _ => 0,
+  }
+}
+
+pub fn block_diff(i: &BlockObs, j: &BlockObs) -> Vec<&'static str> {
+  let mut d = Vec::new();
+  if i.refused || j.refused {
+    if i.refused != j.refused {
+      d.push(if j.refused { "jit-refused" } else { "interp-refused" });
+    }
+    return d;
+  }
+  if (i.af ^ j.af) & 0xff00 != 0 { d.push("a"); }
+  if (i.af ^ j.af) & 0x00ff != 0 { d.push("f"); }
+  if (i.bc ^ j.bc) & 0xffff != 0 { d.push("bc"); }
+  if (i.de ^ j.de) & 0xffff != 0 { d.push("de"); }
+  if (i.hl ^ j.hl) & 0xffff != 0 { d.push("hl"); }
+  if (i.sp ^ j.sp) & 0xffff != 0 { d.push("sp"); }
+  if (i.ip ^ j.ip) & 0xffff != 0 { d.push("pc"); }
+  if status_class(i.status) != status_class(j.status) { d.push("status"); }
+  if i.cycles != j.cycles { d.push("cycles"); }
+  if i.writes != j.writes {
+    let mut a = i.writes.clone();
+    let mut b = j.writes.clone();
+    a.sort();
+    b.sort();
+    if a == b {
+      d.push("bus-order");
+    } else if j.writes.len() > i.writes.len() {
+      d.push("bus-extra");
+    } else {
+      d.push("bus-writes");
+    }
+  }
+  if i.io_digest != j.io_digest { d.push("device-state"); }
+  d
+}
+
+fn eval_jit(job: &Job, wk: &mut W, ctx: &mut Ctx, sw: &Sweep, c: &Cpu, mem: Option<(u16, u8)>, place: &str) {
+  let jw = wk.jw.as_mut().unwrap();
+  let oi = jw.run_interp_block(c);
+  jw.restore(&oi);
+  let t0 = jw.total_translations;
+  let oj = jw.run_jit_block(c, 2);
+  jw.restore(&oj);
+  ctx.count(0, 1);
+  ctx.count(1, jw.total_translations - t0);
+  let opid = if sw.code[0] == 0xCB { 256 + sw.code[1] as u64 } else { sw.code[0] as u64 };
+  let cls = (opid << 8) | (((oi.af as u64) >> 4) & 0xf) << 4 | ((!oi.writes.is_empty()) as u64) << 3 | (oi.refused as u64) << 2 | ((oi.cycles as u64) & 3);
+  ctx.class(cls);
+  let d = block_diff(&oi, &oj);
+  if d.is_empty() {
+    return;
+  }
+  let opname = if sw.code[0] == 0xCB { format!("CB{:02X}", sw.code[1]) } else { format!("{:02X}", sw.code[0]) };
+  for f in d.iter() {
+    let is_cycles = *f == "cycles";
+    if (job.prop == "C02") != is_cycles {
+      continue;
+    }
+    let key = if is_cycles {
+      // the constant depends on opcode and branch outcome only
+      format!("C02 op={} jit={} interp={}", opname, oj.cycles, oi.cycles)
+    } else {
+      format!("C01 op={} field={}", opname, f)
+    };
+    ctx.violation(&key, || {
+      J::obj()
+        .set("case", J::obj().set("regs", cpu_json(c)).set("block", J::s(format!("{} + JP if not a terminator", hex(&sw.code[..sw.len as usize])))).set("mem", match mem {
+          Some((a, v)) => J::s(format!("{:04X}={:02X}", a, v)),
+          None => J::Null,
+        }).set("place", J::s(place)))
+        .set("interpreter", bobs_json(&oi))
+        .set("translated", bobs_json(&oj))
+        .set("differing_fields", J::Arr(d.iter().map(|x| J::s(*x)).collect()))
+    });
+  }
+}
+
 const SENT: [(u8, u8, u8, u8, u8, u8); 2] = [(0x12, 0x34, 0x56, 0x78, 0xC2, 0xF0), (0xED, 0xCB, 0xA9, 0x87, 0xC3, 0x0F)];
 const PC0: u16 = 0x0150;
 
@@ -388,10 +569,25 @@ fn base_cpu(s: usize, pc: u16) -> Cpu {
   cpu_of(0x9C, 0, t.0, t.1, t.2, t.3, t.4, t.5, 0xDFF0, pc)
 }
 
+/// 16-bit values of one case: the 256 values sharing the high byte `outer`, or — for the
+/// code-varying sweeps of the recompiler modes in the quick tier, where every value costs a
+/// translation — the 96-value boundary set (the sweep then has a single case).
+fn vals16(job: &Job, sw: &Sweep, outer: u32) -> Vec<u16> {
+  if sw.outer == 1 {
+    BOUNDARY16.to_vec()
+  } else {
+    (0..=255u16).map(|lo| ((outer as u16) << 8) | lo).collect()
+  }
+}
+
 fn run_case(job: &Job, wk: &mut W, case: u64, ctx: &mut Ctx) {
   let (si, outer) = job.locate(case);
   let sw = job.sweeps[si].clone();
   let code = &sw.code[..sw.len as usize];
+  if job.jit && wk.last_sweep != si {
+    wk.unplant();
+    wk.last_sweep = si;
+  }
   if outer == 0 {
     ctx.sample(|| J::obj().set("sweep", J::s(format!("{:?}", sw.kind))).set("code", J::s(hex(code))).set("outer_values", J::u(sw.outer as u64)));
   }
@@ -429,20 +625,22 @@ fn run_case(job: &Job, wk: &mut W, case: u64, ctx: &mut Ctx) {
           c.a = outer as u8;
           c.f = f << 4;
           let hl = c.hl();
-          wk.plant(hl, &[v]);
+          wk.plant_data(hl, &[v]);
           eval(job, wk, ctx, &sw, &c, Some((hl, v)), "rom0");
         }
       }
     },
     Kind::AluImm => {
-      for v in 0..=255u8 {
-        wk.plant(PC0, &[sw.code[0], v]);
+      // outer = the immediate (one translation per case in the recompiler modes)
+      let v = outer as u8;
+      let mut s2 = sw.clone();
+      s2.code[1] = v;
+      wk.plant(PC0, &s2.code[..2]);
+      for a in 0..=255u8 {
         for f in 0..16u8 {
-          let mut c = base_cpu((v & 1) as usize, PC0);
-          c.a = outer as u8;
+          let mut c = base_cpu((a & 1) as usize, PC0);
+          c.a = a;
           c.f = f << 4;
-          let mut s2 = sw.clone();
-          s2.code[1] = v;
           eval(job, wk, ctx, &s2, &c, None, "rom0");
         }
       }
@@ -464,7 +662,7 @@ fn run_case(job: &Job, wk: &mut W, case: u64, ctx: &mut Ctx) {
         let mut c = base_cpu(0, PC0);
         c.f = (outer as u8) << 4;
         let hl = c.hl();
-        wk.plant(hl, &[v]);
+        wk.plant_data(hl, &[v]);
         eval(job, wk, ctx, &sw, &c, Some((hl, v)), "rom0");
       }
     },
@@ -481,20 +679,25 @@ fn run_case(job: &Job, wk: &mut W, case: u64, ctx: &mut Ctx) {
     },
     Kind::Ld8 => {
       let op = sw.code[0];
-      for v in 0..=255u8 {
-        let mut c = base_cpu((v & 1) as usize, PC0);
-        c.f = (outer as u8) << 4;
+      if sw.len == 2 {
+        let v = outer as u8;
         let mut s2 = sw.clone();
-        if sw.len == 2 {
-          s2.code[1] = v;
-          wk.plant(PC0, &s2.code[..2]);
+        s2.code[1] = v;
+        wk.plant(PC0, &s2.code[..2]);
+        for f in 0..16u8 {
+          let mut c = base_cpu((v & 1) as usize, PC0);
+          c.f = f << 4;
           eval(job, wk, ctx, &s2, &c, None, "rom0");
-        } else {
-          wk.plant(PC0, code);
+        }
+      } else {
+        wk.plant(PC0, code);
+        for v in 0..=255u8 {
+          let mut c = base_cpu((v & 1) as usize, PC0);
+          c.f = (outer as u8) << 4;
           let z = op & 7;
           if z == 6 {
             let hl = c.hl();
-            wk.plant(hl, &[v]);
+            wk.plant_data(hl, &[v]);
             eval(job, wk, ctx, &sw, &c, Some((hl, v)), "rom0");
           } else {
             set_r(&mut c, z, v);
@@ -504,15 +707,15 @@ fn run_case(job: &Job, wk: &mut W, case: u64, ctx: &mut Ctx) {
       }
     },
     Kind::Imm16 => {
-      for lo in 0..=255u8 {
-        let v = ((outer as u16) << 8) | lo as u16;
+      for v in vals16(job, &sw, outer) {
+        let lo = v as u8;
         for f in [0x00u8, 0xF0].iter() {
           let mut c = base_cpu((lo & 1) as usize, PC0);
           c.f = *f;
           let mut s2 = sw.clone();
           if sw.len == 3 {
             s2.code[1] = lo;
-            s2.code[2] = outer as u8;
+            s2.code[2] = (v >> 8) as u8;
             wk.plant(PC0, &s2.code[..3]);
           } else {
             c.set_hl(v);
@@ -583,16 +786,15 @@ fn run_case(job: &Job, wk: &mut W, case: u64, ctx: &mut Ctx) {
       }
     },
     Kind::SpRel => {
-      for e in 0..=255u8 {
-        let mut s2 = sw.clone();
-        s2.code[1] = e;
-        wk.plant(PC0, &s2.code[..2]);
-        for lo in 0..=255u8 {
-          let mut c = base_cpu((lo & 1) as usize, PC0);
-          c.f = if lo & 2 != 0 { 0xF0 } else { 0x00 };
-          c.sp = ((outer as u16) << 8) | lo as u16;
-          eval(job, wk, ctx, &s2, &c, None, "rom0");
-        }
+      // outer = e8, inner = all 65536 SP values
+      let mut s2 = sw.clone();
+      s2.code[1] = outer as u8;
+      wk.plant(PC0, &s2.code[..2]);
+      for sp in 0..=65535u16 {
+        let mut c = base_cpu((sp & 1) as usize, PC0);
+        c.f = if sp & 2 != 0 { 0xF0 } else { 0x00 };
+        c.sp = sp;
+        eval(job, wk, ctx, &s2, &c, None, "rom0");
       }
     },
     Kind::PopWord(_) => {
@@ -601,7 +803,7 @@ fn run_case(job: &Job, wk: &mut W, case: u64, ctx: &mut Ctx) {
         let mut c = base_cpu((lo & 1) as usize, PC0);
         c.f = if lo & 2 != 0 { 0xF0 } else { 0x00 };
         c.sp = 0xD100;
-        wk.plant(0xD100, &[lo, outer as u8]);
+        wk.plant_data(0xD100, &[lo, outer as u8]);
         eval(job, wk, ctx, &sw, &c, Some((0xD100, lo)), "rom0");
       }
     },
@@ -624,13 +826,13 @@ fn run_case(job: &Job, wk: &mut W, case: u64, ctx: &mut Ctx) {
       }
     },
     Kind::Ptr(via) => {
-      let n_lo: u32 = 256;
-      for lo in 0..n_lo {
-        let (ptr, hi_loop): (u16, bool) = match via {
-          PtrVia::C | PtrVia::Imm8 => (0xFF00 | lo as u16, false),
-          _ => (((outer as u16) << 8) | lo as u16, true),
-        };
-        let _ = hi_loop;
+      let ptrs: Vec<u16> = match via {
+        PtrVia::C | PtrVia::Imm8 => (0..=255u16).map(|lo| 0xFF00 | lo).collect(),
+        _ => vals16(job, &sw, outer),
+      };
+      let mut last_pc = 0xFFFFu16;
+      for ptr in ptrs {
+        let lo = ptr & 0xff;
         for av in [0x00u8, 0xA7].iter() {
           let mut c = base_cpu((lo & 1) as usize, PC0);
           c.a = *av;
@@ -655,15 +857,24 @@ fn run_case(job: &Job, wk: &mut W, case: u64, ctx: &mut Ctx) {
           // keep the instruction out of the way of its own pointer target
           let pc = if (0x0100..0x0200).contains(&ptr) { 0x0300 } else { PC0 };
           c.pc = pc;
+          if last_pc != pc {
+            wk.unplant();
+            last_pc = pc;
+          }
           wk.plant(pc, &s2.code[..s2.len as usize]);
           eval(job, wk, ctx, &s2, &c, None, "rom0");
-          wk.unplant();
         }
       }
     },
     Kind::Place => {
-      let (pc, name) = if (outer as usize) < PLACES.len() { PLACES[outer as usize] } else { STRADDLE[outer as usize - PLACES.len()] };
-      let straddle = (outer as usize) >= PLACES.len();
+      let (pc, name) = if job.jit {
+        PLACES_JIT[outer as usize]
+      } else if (outer as usize) < PLACES.len() {
+        PLACES[outer as usize]
+      } else {
+        STRADDLE[outer as usize - PLACES.len()]
+      };
+      let straddle = !job.jit && (outer as usize) >= PLACES.len();
       if straddle && sw.len < 2 {
         return;
       }
@@ -685,6 +896,9 @@ fn run_case(job: &Job, wk: &mut W, case: u64, ctx: &mut Ctx) {
       let mut s2 = sw.clone();
       s2.code[1] = e;
       for (pc, name) in [(0x0000u16, "rom0"), (0x0070, "rom0"), (0x3FFE, "rom0-end"), (0x4000, "romN"), (0x7FFE, "romN-end"), (0xC000, "wram0"), (0xDFFE, "wramN-end"), (0xFF80, "hram"), (0xFFFD, "hram-end")].iter() {
+        if job.jit && *pc >= 0x8000 {
+          continue;
+        }
         wk.plant(*pc, &s2.code[..2]);
         for f in 0..16u8 {
           let mut c = base_cpu(0, *pc);
@@ -695,10 +909,11 @@ fn run_case(job: &Job, wk: &mut W, case: u64, ctx: &mut Ctx) {
       }
     },
     Kind::Target => {
-      for lo in 0..=255u8 {
+      for v in vals16(job, &sw, outer) {
+        let lo = v as u8;
         let mut s2 = sw.clone();
         s2.code[1] = lo;
-        s2.code[2] = outer as u8;
+        s2.code[2] = (v >> 8) as u8;
         wk.plant(PC0, &s2.code[..3]);
         for f in [0x00u8, 0xF0, 0x80, 0x10].iter() {
           let mut c = base_cpu((lo & 1) as usize, PC0);
@@ -727,63 +942,73 @@ fn run_case(job: &Job, wk: &mut W, case: u64, ctx: &mut Ctx) {
       }
     },
   }
-  wk.unplant();
+  if !job.jit {
+    wk.unplant();
+  }
 }
 
 pub fn run(prop: &'static str, tier: &str) -> i32 {
-  let level = "exploration";
-  let mut rep = Report::new(prop, tier, level);
+  let mut rep = Report::new(prop, tier, "exploration");
+  stage_single(prop, &mut rep);
+  rep.finish()
+}
+
+/// Stage (a): every encoding as a single instruction (C05/C06) or single-instruction block
+/// (C01/C02) over its complete operand class.  Returns the number of evaluations.
+pub fn stage_single(prop: &'static str, rep: &mut Report) -> u64 {
   if let Err(e) = r1::self_test() {
     rep.machinery_error(format!("R1 self-test failed: {}", e));
-    return rep.finish();
+    return 0;
   }
   let thorough = rep.thorough();
-  let mut sweeps = build_sweeps(prop, thorough);
-  if prop == "C06" && !thorough {
-    for s in sweeps.iter_mut() {
-      if s.kind == Kind::SpAll {
-        s.outer = 1;
-      }
-    }
-  }
+  let jit = prop == "C01" || prop == "C02";
+  let sweeps = build_sweeps(prop, thorough);
   let mut starts = Vec::with_capacity(sweeps.len());
   let mut total = 0u64;
   for s in sweeps.iter() {
     starts.push(total);
     total += s.outer as u64;
   }
-  let job = Job { prop, sweeps, starts, total, thorough };
-  let opts = PoolOpts { chunk: 8, bitmap_bits: 1 << 17, samples_per_child: 1, ..PoolOpts::default() };
+  let job = Job { prop, jit, sweeps, starts, total, thorough };
+  let opts = PoolOpts { chunk: if jit { 2 } else { 8 }, bitmap_bits: 1 << 18, samples_per_child: 1, ..PoolOpts::default() };
   let r = run_pool(
     total,
     &opts,
-    |_| W { w: StepWorld::new(), planted: Vec::new() },
+    |_| W { w: StepWorld::new(), jw: if jit { Some(JitWorld::new()) } else { None }, planted: Vec::new(), last_sweep: usize::MAX },
     |wk, case, ctx| run_case(&job, wk, case, ctx),
     |case, how| {
       let (si, outer) = job.locate(case);
       let sw = &job.sweeps[si];
       (
         format!("{} op={} crash={}", prop, if sw.code[0] == 0xCB { format!("CB{:02X}", sw.code[1]) } else { format!("{:02X}", sw.code[0]) }, how),
-        J::obj().set("case", J::obj().set("sweep", J::s(format!("{:?}", sw.kind))).set("outer", J::u(outer as u64))),
+        J::obj().set("case", J::obj().set("sweep", J::s(format!("{:?}", sw.kind))).set("code", J::s(hex(&sw.code[..sw.len as usize]))).set("outer", J::u(outer as u64))),
       )
     },
   );
-  let space = if prop == "C05" {
-    "every data opcode x complete operand class: A x operand x F (2^20) for ALU forms, value x F for INC/DEC/CB/LD, all 2^16 for 16-bit loads/inc/dec/POP/PUSH, 2^16 x 2^8 for SP-relative forms, all 65536 pointer values for memory forms, ADD HL,rr boundary product (quick) or all 2^32 pairs (thorough)"
-  } else {
-    "all 512 encodings x 16 F x 12 placements + 3 region-straddling placements; JR x all 256 displacements x 9 placements x 16 F; JP/CALL x all 65536 targets; stack/control forms x SP boundary set (quick) or all 65536 SP values (thorough)"
+  let space = match prop {
+    "C05" | "C01" => "every data opcode x complete operand class: A x operand x F (2^20) for ALU forms, value x F for INC/DEC/CB/LD, all 2^16 for 16-bit loads/inc/dec/POP/PUSH, 2^16 x 2^8 for SP-relative forms, all 65536 pointer values for memory forms, ADD HL,rr boundary product (quick) or all 2^32 pairs (thorough); C01 adds the control-flow sweeps: all 512 encodings x 16 F x 12 ROM placements, JR x 256 displacements, JP/CALL x 65536 targets, stack forms x SP set",
+    _ => "all 512 encodings x 16 F x placements (+ region-straddling placements); JR x all 256 displacements x placements x 16 F; JP/CALL x all 65536 targets; stack/control forms x SP boundary set (quick) or all 65536 SP values (thorough)",
   };
-  let counters = rep.add_stage("single-step-conformance", space, r);
+  let counters = rep.add_stage(if jit { "single-instruction-blocks" } else { "single-step-conformance" }, space, r);
   rep.evaluations = counters[0];
-  rep.cov(
-    "rule",
-    J::s("each case is one real interpreter::run_next_op execution compared field by field with R1; an outcome class is (encoding, flags out, branch taken, wrote memory, undefined) and is counted once"),
-  );
   rep.cov("sweeps", J::u(job.sweeps.len() as u64));
-  rep.assume("R1 (harness/src/refm/r1.rs) is generated from the opcode bit fields and self-tested against arithmetic definitions before use");
-  rep.assume("both sides read memory through the real bus helpers (the bus itself is judged by C10)");
-  if prop == "C06" {
-    rep.assume("PC placements are restricted to ROM, work RAM and high RAM (the regions the property names for instruction fetch)");
+  if jit {
+    rep.cov("blocks_translated", J::u(counters[1]));
+    rep.cov(
+      "rule",
+      J::s("each case executes one block twice on the real code (interpreter::run_code_block, then translate_code_block + CodeCache::call) from the same state and compares registers, status, cycles, ordered bus writes and device state; an outcome class is (encoding, flags out, wrote memory, refused, cycles mod 4)"),
+    );
+    rep.assume("the interpreter is the oracle here; it is itself judged against an independent SM83 reference by C05/C06");
+  } else {
+    rep.cov(
+      "rule",
+      J::s("each case is one real interpreter::run_next_op execution compared field by field with R1; an outcome class is (encoding, flags out, branch taken, wrote memory, undefined) and is counted once"),
+    );
+    rep.assume("R1 (harness/src/refm/r1.rs) is generated from the opcode bit fields and self-tested against arithmetic definitions before use");
+    rep.assume("both sides read memory through the real bus helpers (the bus itself is judged by C10)");
+    if prop == "C06" {
+      rep.assume("PC placements are restricted to ROM, work RAM and high RAM (the regions the property names for instruction fetch)");
+    }
   }
-  rep.finish()
+  counters[0]
 }
